@@ -32,6 +32,8 @@ pub mod c13;
 #[cfg(feature = "full")]
 pub mod helpmodel;
 #[cfg(feature = "full")]
+pub mod c16;
+#[cfg(feature = "full")]
 pub mod c18;
 #[cfg(feature = "full")]
 pub mod c19;
@@ -185,6 +187,7 @@ pub fn run_case(case: &mut Case) {
         "C11" => c11::run_case(case),
         "C12" => c12::run_case(case),
         "C13" => c13::run_case(case),
+        "C16" => c16::run_case(case),
         "C18" => c18::run_case(case),
         "C19" => c19::run_case(case),
         p => panic!("unknown property {}", p),
